@@ -19,6 +19,18 @@ static PREFIX: std::sync::RwLock<String> = std::sync::RwLock::new(String::new())
 static CONTENTIONS: std::sync::RwLock<Vec<u64>> = std::sync::RwLock::new(Vec::new());
 
 /// Signature prefix of violations raised by this module (property id of the calling check).
+static DEADLINE_MS: std::sync::atomic::AtomicU64 = std::sync::atomic::AtomicU64::new(u64::MAX);
+/// Exploration deadline (milliseconds since the UNIX epoch) after which long workloads stop early;
+/// it bounds exploration only, never a verdict.
+pub fn set_deadline_in(d: std::time::Duration) {
+    let now = std::time::SystemTime::now().duration_since(std::time::UNIX_EPOCH).unwrap_or_default();
+    DEADLINE_MS.store((now + d).as_millis() as u64, std::sync::atomic::Ordering::Relaxed);
+}
+fn deadline_passed() -> bool {
+    let now = std::time::SystemTime::now().duration_since(std::time::UNIX_EPOCH).unwrap_or_default().as_millis() as u64;
+    now > DEADLINE_MS.load(std::sync::atomic::Ordering::Relaxed)
+}
+
 pub fn set_prefix(p: &str) {
     *PREFIX.write().unwrap() = p.to_string();
 }
@@ -747,13 +759,25 @@ pub fn case(case: u64, rng: &mut Rng, st: &mut Stats, tier: vcore::Tier) {
         if kinds.contains("flush") && kinds.contains("update") && kinds.contains("remove") {
             st.distinct(vcore::fnv_str(&clean.history.join(";")));
         }
-        // L1: every crash point; convergence on a sample (it costs ~4 reopens)
+        // L1: every crash point; convergence on a sample (it costs ~4 reopens). Burst workloads have
+        // thousands of crash points with long recoveries: their nested level is sampled in both
+        // tiers, and a workload that outlives the exploration budget is cut (counted).
+        let big = burst.is_some();
         for k in 0..=m {
-            let do_conv = tier.pick(k % 7 == (case as usize % 7), k % 2 == 0);
-            let l2 = tier.pick(if k % 11 == (case as usize % 11) { 2 } else { 0 }, if k % 3 == 0 { usize::MAX } else { 0 });
+            let do_conv = if big { k % 13 == (case as usize % 13) } else { tier.pick(k % 7 == (case as usize % 7), k % 2 == 0) };
+            let l2 = if big {
+                if k % 17 == (case as usize % 17) { tier.pick(2, 6) } else { 0 }
+            } else {
+                tier.pick(if k % 11 == (case as usize % 11) { 2 } else { 0 }, if k % 3 == 0 { usize::MAX } else { 0 })
+            };
             level1(&clean, k, rng, st, do_conv, l2).await;
             if st.violations.len() >= 3 {
                 return;
+            }
+            if deadline_passed() {
+                st.count("workloads_cut_by_exploration_budget");
+                st.add("crash_points_not_explored_for_time", (m - k) as u64);
+                break;
             }
         }
         // UO: a single call failing before / after it landed
